@@ -12,7 +12,7 @@
 (* order of first occurrence, datacenter names in order of first           *)
 (* occurrence over node ids, rack names likewise inside each datacenter.   *)
 (***************************************************************************)
-EXTENDS Topology, TLC, Json
+EXTENDS Topology, TopologyEnum, TLC, Json
 
 CONSTANTS MaxLen,      \* ring entries (tokens) at most
           MaxNodes,    \* distinct nodes at most
@@ -24,29 +24,11 @@ CONSTANTS MaxLen,      \* ring entries (tokens) at most
           SimpleRfs    \* replication factors for SimpleStrategy
 
 Unnamed == 99
-DcName(k) == CASE k = 1 -> "dc1" [] k = 2 -> "dc2" [] k = 3 -> "dc3" [] OTHER -> "dc4"
-RackName(k) == CASE k = 1 -> "r1" [] k = 2 -> "r2" [] k = 3 -> "r3" [] OTHER -> "r4"
 DcNames == [k \in 1 .. NDcs |-> DcName(k)] \o <<"dcX">>
-
-MaxOf(S) == IF S = {} THEN 0 ELSE CHOOSE x \in S : \A y \in S : y <= x
-Count(s, x) == Cardinality({k \in 1 .. Len(s) : s[k] = x})
-
-\* rings in restricted-growth form, each node at most MaxVnodes times
-RECURSIVE RG(_)
-RG(L) == IF L = 0 THEN {<<>>}
-         ELSE UNION {{Append(s, h) : h \in {x \in 1 .. Min2(MaxOf(RangeOf(s)) + 1, MaxNodes) : Count(s, x) < MaxVnodes}}
-                     : s \in RG(L - 1)}
-Rings == UNION {RG(L) : L \in 1 .. MaxLen}
-
-\* datacenter index per node, restricted growth over node ids
-RECURSIVE DcIdx(_)
-DcIdx(n) == IF n = 0 THEN {<<>>}
-            ELSE UNION {{Append(s, d) : d \in 1 .. Min2(MaxOf(RangeOf(s)) + 1, NDcs)} : s \in DcIdx(n - 1)}
-\* rack index per node, restricted growth inside each datacenter
-RECURSIVE RackIdx(_, _)
-RackIdx(di, n) == IF n = 0 THEN {<<>>}
-                  ELSE UNION {{Append(s, r) : r \in 1 .. Min2(MaxOf({s[k] : k \in {m \in 1 .. n - 1 : di[m] = di[n]}}) + 1, NRacks)}
-                              : s \in RackIdx(di, n - 1)}
+MaxOf(S) == EnumMaxOf(S)
+Rings == EnumRings(MaxLen, MaxNodes, MaxVnodes)
+DcIdx(n) == EnumDcIdx(n, NDcs)
+RackIdx(di, n) == EnumRackIdx(di, n, NRacks)
 
 Keyspaces ==
   {[strat |-> "simple", rfdc |-> <<"*">>, rfn |-> <<r>>] : r \in SimpleRfs} \cup
